@@ -130,3 +130,52 @@ def replay_seq(doc):
     r = seq.execute(cfg, hist, set(t["oracles"]), hooks)
     out.extend(r.violations)
     return out
+
+
+# --------------------------------------------------------------------------------------
+# Enumerated cases (no search): each case is (tag, cfg, history) checked on its last event
+# --------------------------------------------------------------------------------------
+
+
+def make_case_task(label, cases, oracles, hooks=None, extra=None):
+    return {"kind": "cases", "label": label, "cases": cases, "oracles": sorted(oracles), "hooks": hooks,
+            "extra": extra or {}}
+
+
+def run_case_task(mod, task):
+    env.lib(getattr(mod, "WITH_NUMPY", False))
+    oracles = set(task["oracles"])
+    hooks = mod.make_hooks(task["hooks"], task) if task["hooks"] else None
+    cases = task["cases"]
+
+    def handler(i):
+        tag, cfg, hist = cases[i]
+        r = seq.execute(cfg, hist, oracles, hooks)
+        return {"violations": list(r.violations), "outcome": seq._outcome_key(r.outcome), "digest": r.digest}, bool(r.violations)
+
+    server = isolate.Server(handler)
+    res = new_result()
+    digests = set()
+    try:
+        for i, (tag, cfg, hist) in enumerate(cases):
+            resp = server.call(i)
+            res["evaluations"] += 1
+            res["transitions"] += 1
+            digests.add(resp["digest"])
+            key = "%s:%s" % (hist[-1][2] if hist and hist[-1][0] == "op" else (hist[-1][0] if hist else "-"), resp["outcome"])
+            res["outcomes"][key] = res["outcomes"].get(key, 0) + 1
+            if len(res["samples"]) < 2:
+                res["samples"].append({"tag": tag, "class": cfg.clsname, "history": [repr(e) for e in hist]})
+            for k, d in resp["violations"]:
+                sig = "%s|%s|%s|%s" % (mod.PROPERTY, cfg.label, tag, k)
+                res["violations"].append({
+                    "signature": sig, "detail": d,
+                    "replay": {"engine": "seq", "module": mod.__name__,
+                               "task": {"label": task["label"], "cfg": cfg_to_doc(cfg), "alphabet": None, "depth": len(hist),
+                                        "oracles": task["oracles"], "hooks": task["hooks"], "extra": task.get("extra", {})},
+                               "history": [repr(e) for e in hist]}})
+    finally:
+        server.close()
+    res["states"] = len(digests)
+    res["nontrivial"] = len(digests)
+    return res
